@@ -240,7 +240,42 @@ func ruleGRDadmit(w *World, r *Report) {
 		o := calleeObj(&c.Call)
 		return o != nil && o.Pkg() != nil && o.Pkg().Path() == "sync/atomic" && shortName(o) == "Bool.Load" && recvIsField(c, "Deleted")
 	}
-	contains := func(in ssa.Instruction) bool { return isMethodCall(in, "RoaringBitmap/roaring", "Bitmap.Contains") }
+	rawContains := func(in ssa.Instruction) bool { return isMethodCall(in, "RoaringBitmap/roaring", "Bitmap.Contains") }
+	// the membership test written as a predicate of its own: a function of the package that takes the bitmap, answers a
+	// bool, and — with a list present — answers yes only through Contains (or answers Contains itself)
+	admits := map[*ssa.Function]bool{}
+	isAdmitHelper := func(h *ssa.Function) bool {
+		if known, seen := admits[h]; seen {
+			return known
+		}
+		ok := false
+		if h != nil && h.Pkg == fn.Pkg && len(h.Blocks) > 0 && h.Signature.Results().Len() == 1 && isBoolType(h.Signature.Results().At(0).Type()) && len(findInstrs(h, rawContains)) > 0 {
+			yes := func(in ssa.Instruction) bool {
+				rt, isRet := in.(*ssa.Return)
+				if !isRet {
+					return false
+				}
+				v := retVal(rt, 0)
+				if c, isC := v.(*ssa.Const); isC && c.Value != nil && c.Value.Kind() == constant.Bool && !constant.BoolVal(c.Value) {
+					return false
+				}
+				if vc, isCall := v.(*ssa.Call); isCall && rawContains(vc) {
+					return false // `return list.Contains(id)`: the answer is the membership
+				}
+				return true
+			}
+			ok, _ = mustPassGuard(h, yes, rawContains, callValue, true, allowListAssumption(h))
+		}
+		admits[h] = ok
+		return ok
+	}
+	contains := func(in ssa.Instruction) bool {
+		if rawContains(in) {
+			return true
+		}
+		c, ok := in.(*ssa.Call)
+		return ok && isAdmitHelper(c.Call.StaticCallee())
+	}
 	assume := allowListAssumption(fn)
 	for i, p := range pushes {
 		pp := p
